@@ -4,6 +4,7 @@ import datetime as _dt
 import io
 import random
 
+from .. import gen
 from ..harness import CheckBase
 
 CLASSES = {
@@ -201,7 +202,11 @@ class Check(CheckBase):
                     data = r.randbytes(r.choice([0, 1, c - 1, c, c + 1, 3 * c + 1]))
                     try:
                         if op == 'upload_stream':
-                            await backend.upload_stream(name, io.BytesIO(data), len(data), c)
+                            # half of the payload streams deliver short reads (raw files, pipes do): same bytes, other pieces
+                            src_stream = gen.ShortReads(data, r.randrange(1 << 30)) if r.random() < 0.5 else io.BytesIO(data)
+                            await backend.upload_stream(name, src_stream, len(data), c)
+                            if isinstance(src_stream, gen.ShortReads):
+                                counters['short_read_streams'] = counters.get('short_read_streams', 0) + 1
                         else:
                             await backend.upload(name, data)
                         model[name] = data
